@@ -710,4 +710,12 @@ example : ((preprocess "-a*(-b+a)--b".toList).bind (fun p => makeRPN p.1)).toOpt
 /-- T15'': `c=-a*(-b+a)--b` stores `[3, -6, 9]` under the new name `c` -/
 example : (operate trEx "c=-a*(-b+a)--b".toList).2.feats = trEx.feats ++ [(['c'], [3, -6, 9])] := by decide +kernel
 
+/-- outside `SrcOK` (no number or name ends with `.`): a literal written `2.` directly before `*` holds the pattern `.*` of the
+FILTER shorthand — `2.*a` is rewritten to `2!a`, not read as `2.0*a` (the real code does the same and raises KeyError);
+`a*2.` and `2.+a` are read as written -/
+example : (preprocess "2.*a".toList).toOption = some ("#output = 2!a".toList, false)
+    ∧ ((preprocess "2.*a".toList).bind (fun p => makeRPN p.1)).toOption = some [outputName, ['2'], ['a'], ['!'], ['=']]
+    ∧ ((preprocess "a*2.".toList).bind (fun p => makeRPN p.1)).toOption = some [outputName, ['a'], ['2', '.'], ['*'], ['=']] := by
+  decide +kernel
+
 end TV.C02
